@@ -290,7 +290,7 @@ impl Prop for C10 {
         let b = "the same generator restricted (by re-drawing) to programs for which name-based substitution with the repository's known scoping agrees with capture-avoiding expansion: collisions that must be harmless";
         let c = "hand-written probes of compiler-synthesised names (__dt0, feed_id0, __lambda_arg_0, record_update_temp), one fresh process per case; the user's variable is renamed";
         let (na, nb) = match tier {
-            Tier::Quick => (1500, 1400),
+            Tier::Quick => (6000, 6000),
             Tier::Thorough => (30_000, 70_000),
         };
         vec![
